@@ -15,17 +15,17 @@ TEXT = {
     "C05": ("other", "cursor discipline, index restore, error funnel proved for all states by PyVC; index monotonicity of the retreating _parse_* methods (53 of 77 proved, the rest undecided at a recorded baseline) and progress of the parser's while loops (86 of 90 token loops) by projection-mode VCs; total behaviour on mutated and growing inputs is a bounded step-counted run-time check", "3 C05, 9.1"),
     "C06": ("other", "connector / comparison decision tables proved sound in 3VL for all literals; every rewrite step of simplify/normalize checked equivalent under all order-relevant assignments on an exhaustive expression space up to a depth (bounded)", "3 C06"),
     "C07": ("other", "sep, maybe_comment and indent (slices) and the sentinel restoration in generate proved, with a frame scan that the layout options are stored only in Generator.__init__; sentinel replacement decided for all strings by RegTrans; option product parse-back is a bounded run-time contract check", "3 C07"),
-    "C08": ("other", "link invariant and hash-invalidation of all ancestors proved for Expression.set/append/_set_parent/replace/pop for all heaps (PyVC, 490+ VCs); all operation sequences up to a length on small trees checked at run time (bounded)", "3 C08"),
-    "C09": ("other", "copy=True => modifies only fresh objects proved for the copy funnels; fingerprint-unchanged checked at run time on corpus x functions x dialects (bounded)", "3 C09"),
+    "C08": ("other", "link invariant and hash-invalidation of all ancestors proved for Expression.set/append/_set_parent/replace/pop for all heaps (PyVC, 490+ VCs); the optimizer's undo journal (record / revert restores every entry through Expression.set) proved; all operation sequences up to a length on small trees checked at run time (bounded)", "3 C08"),
+    "C09": ("other", "copy=True => modifies only fresh objects proved for the copy funnels (maybe_copy, maybe_parse, the optimize entry copy, _apply_conjunction_builder, _apply_builder) and the undo journal; fingerprint-unchanged checked at run time on corpus x functions x dialects (bounded)", "3 C09"),
     "C10": ("other", "normalize_identifier idempotent and case-sensitive identifiers untouched proved for all strategies; Scope.branch proved to give each child scope its own CTE map (inherited definitions overridden name by name by the inner ones, never the parent's dict object); qualify postcondition + idempotence bounded", "3 C10"),
     "C11": ("other", "operator kernels only: Kleene AND/OR/NOT, IN, null_if_any, filter_nulls, unmatched-row rule proved against SQL 3VL for all values; joins/set operations/aggregates vs a bag spec on all tiny tables (bounded). Agreement of execute() with an external engine is not claimed", "3 C11"),
     "C12": ("other", "serde._load proved to rebuild a node that carries exactly the payload's type / comments / meta while writing nothing that existed before (the only tier-A part; serde.dump's stack loop could not be brought under contract); dump/load/json/pickle/copy round trip on every node class x arg kinds, the corpus, and trees with marker comments is a bounded run-time contract check", "3 C12, 9.8"),
     "C13": ("other", "tokenizer _advance/_add offset and line/col consistency, raise_error position transfer proved; token order/gap/position relation on enumerated layouts bounded", "3 C13"),
     "C14": ("other", "the whole error-level relation at the funnel (raise_error, validate_expression, check_errors, _try_parse, concat_messages, Generator.unsupported/generate tail) proved for all states, plus mechanical frame scans that error_level / unsupported_level are read nowhere else; four-run relation end to end bounded", "3 C14"),
-    "C15": ("other", "reused Parser/Tokenizer == fresh one by mechanical frame scans comparing reset() with __init__ (syntactic) and a proved fresh-state assertion at TokenizerCore.tokenize; generator per-call frame scan; MappingSchema.find answers independent of earlier strict / lenient questions proved; hash-seed / call-order relation in subprocesses bounded", "3 C15"),
+    "C15": ("other", "reused Parser/Tokenizer == fresh one by mechanical frame scans comparing reset() with __init__ (syntactic) and a proved fresh-state assertion at TokenizerCore.tokenize; generator per-call frame scan; MappingSchema.find answers independent of earlier strict / lenient questions proved; hash-seed / call-order relation in subprocesses, and class-level tables unchanged by loading or defining other dialects, bounded", "3 C15"),
     "C17": ("other", "Scope.branch (the step that decides which CTE definition a name resolves to) proved: inner definitions shadow inherited ones, key by key, in a fresh map; lineage leaves == construction-recorded flow on an enumerated query family and three presentation invariances are a bounded run-time contract check", "3 C17"),
-    "C18": ("other", "cache coherence of MappingSchema.find/add_table w.r.t. the abstract view proved (PyVC); all interleavings up to a length vs a freshly built schema bounded", "3 C18"),
-    "C20": ("other", "accounting invariant of the leaf matcher's greedy loop (a node is matched at most once and leaves the unmatched sets exactly when matched, whatever the similarity heuristics return) and class equality of _is_same_type proved; accounting of the generated edit script and delta-empty <=> equal on edited pairs bounded", "3 C20"),
+    "C18": ("other", "cache coherence of MappingSchema.find/add_table w.r.t. the abstract view proved (PyVC), the name / type memo tables proved to answer as the uncached computation of the ARGUMENT would; all interleavings up to a length vs a freshly built schema bounded", "3 C18"),
+    "C20": ("other", "accounting invariant of the leaf matcher's greedy loop (a node is matched at most once and leaves the unmatched sets exactly when matched, whatever the similarity heuristics return) class equality of _is_same_type, and the accounting of _generate_edit_script (one Remove / Insert per unmatched node, exactly one Keep / Update per matched pair) proved; node-level accounting of whole diffs and delta-empty <=> equal on edited pairs bounded", "3 C20"),
 }
 
 NOTE = ("Trusted: the PyVC encoding of Python semantics (DESIGN.md 2.1, 6), declared-opaque callees and assumed field types listed in the evidence, "
